@@ -5,7 +5,6 @@ import (
 	"fmt"
 	"math"
 	"os"
-	"strings"
 	"time"
 
 	"github.com/zalf-rpm/Hermes2Go/hermes"
@@ -39,6 +38,8 @@ type c15Case struct {
 	PTF   int            `json:"ptf"`
 	GW    int            `json:"gw"`
 	LWord []float64      `json:"lword,omitempty"`
+	Cls   string         `json:"cls,omitempty"`   // set in replay specs: class suffix and label of the enumerated case
+	Label string         `json:"label,omitempty"`
 }
 
 var c15Textures = []string{"SU", "SU2", "SU3", "SU4", "SL2", "SL3", "SL4", "SLU", "ST2", "ST3", "SF", "SG", "SM", "SMG", "SMF", "SS", "US", "UU", "ULS", "UT2", "UT3", "UT4", "UTS",
@@ -252,6 +253,7 @@ func c15RunCase(c *mc.Ctx, sp c15Spec, cs c15Case, cls, label string) {
 	}
 	if len(c.Viol) > nv && sp.One == nil {
 		one := sp
+		cs.Cls, cs.Label = cls, label
 		one.One = &cs
 		bb, _ := json.Marshal(one)
 		for i := nv; i < len(c.Viol); i++ {
@@ -278,7 +280,7 @@ func c15RouteSoil(soil, route string) ([]proj.Horizon, int) {
 func c15Run(raw json.RawMessage, c *mc.Ctx) {
 	sp := mc.Decode[c15Spec](raw)
 	if sp.One != nil {
-		c15RunCase(c, sp, *sp.One, " "+sp.Kind+strings.TrimSpace(" "+sp.Route), "replay")
+		c15RunCase(c, sp, *sp.One, sp.One.Cls, sp.One.Label)
 		return
 	}
 	switch sp.Kind {
